@@ -112,7 +112,7 @@ def run(rep):
         par = random_pars(rng, small_pw=rng.random() < 0.7)
         th.parameters.update(par)
         xi = 10 ** rng.uniform(-4, math.log10(0.3))
-        Q2 = Q02 if rng.random() < 0.2 else (Q02 * (1 + 10 ** rng.uniform(-4, -1.3)) if rng.random() < 0.17 else 10 ** rng.uniform(math.log10(Q02), 2))
+        Q2 = Q02 * (1 + 10 ** rng.uniform(-3, -1.5)) if done % 7 == 3 else (Q02 if rng.random() < 0.2 else 10 ** rng.uniform(math.log10(Q02), 2))
         t = rng.uniform(-1, 0)
         asf, asr = couplings(th, Q2)
         tag = 'p=%d/%s' % (p, scheme)
@@ -275,7 +275,7 @@ def run(rep):
             par = dict(par, secs=-0.16, secg=-0.07, this=0.04, thig=-0.04, Esecs=0.16, Esecg=0.25, Ethis=-0.04, Ethig=-0.05,
                        al0s=1.13, al0g=1.03, Eal0s=1.21, Eal0g=1.06)
             variants.append((2.1, C0))
-            variants.append((rng.uniform(math.pi / 2, 1.9), C0))
+            variants.append((1.85, C0))          # fixed: well away from the default contour, below the region of the finding
         else:
             variants.append((rng.uniform(math.pi / 2, 2.1), C0))
         if not slow:
